@@ -44,6 +44,8 @@ pub fn run(rep: &mut Report, thorough: bool) {
         let lines = t.maps();
         for _ in 0..per_target {
             let mut o = DumpOpts::new(t.pid, t.pid);
+            // sanitization only concerns the stacks: every other region must stay byte-exact
+            o.sanitize = rng.chance(1, 3);
             // application regions
             let napp = *rng.pick(&[0usize, 1, 2, 5, 16]);
             for _ in 0..napp {
@@ -55,6 +57,26 @@ pub fn run(rep: &mut Report, thorough: bool) {
                     _ => a + rng.below(l - len + 1),
                 };
                 o.app_memory.push((start, len));
+            }
+            // regions that overlap what the writer captures anyway: inside a thread's stack, nested in
+            // another requested region, a repeated request
+            if !b.sentinels.is_empty() && rng.chance(1, 2) {
+                let s = rng.pick(&b.sentinels);
+                let sp_page = s.regs.gpr[RSP] & !4095;
+                let room = s.stack_base + s.stack_len - sp_page;
+                let len = std::cmp::min(room - 1, *rng.pick(&[1u64, 8, 301, 2048, 4095]));
+                let start = sp_page + rng.below(room - len);
+                if (start, len) != (sp_page, room) {
+                    o.app_memory.push((start, len));
+                }
+            }
+            if let Some(&(a, l)) = o.app_memory.first() {
+                if l > 4 && rng.chance(1, 3) {
+                    o.app_memory.push((a + 1, l - 2));
+                }
+                if rng.chance(1, 4) {
+                    o.app_memory.push((a, l));
+                }
             }
             // crash context / instruction pointer position
             let ip_choice = rng.below(12);
@@ -100,6 +122,11 @@ pub fn run(rep: &mut Report, thorough: bool) {
                         // the main thread runs: its stack is not quiescent
                         let running_stack = threads.iter().any(|th| th.tid as i32 == t.pid && th.stack_start == d.start && th.stack_size == d.size);
                         if running_stack || d.size == 0 {
+                            continue;
+                        }
+                        // with sanitization the stack descriptors hold the sanitized copy (C12's business)
+                        let is_stack = threads.iter().any(|th| th.stack_size > 0 && th.stack_start == d.start && th.stack_size == d.size && th.stack_rva == d.rva);
+                        if o.sanitize && is_stack {
                             continue;
                         }
                         let got = &img[d.rva as usize..(d.rva + d.size) as usize];
